@@ -227,7 +227,9 @@ class Queue(Greenlet):
         self.relay = relay
         self.backoff = backoff or self._default_backoff
         self.bounce_factory = bounce_factory or Bounce
-        self.bounce_queue = bounce_queue or self
+        # A queue is a greenlet, and a greenlet that has not been started yet
+        # is false: only a missing bounce queue means "use this one".
+        self.bounce_queue = self if bounce_queue is None else bounce_queue
         self.wake = Event()
         self.queued = []
         self.active_ids = set()
